@@ -199,6 +199,19 @@ CLAIMED = {
         "validation.",
    note="Exception class is not compared (the property says 'raises'); a different pipeline continuing a folder may be refused.",
    technique="TLA+ validity clauses + prepare state machine checked by TLC; mutant universe export compared against the code"),
+ "C07": dict(
+   category="model_checking", design_ref="6 C07",
+   text="Storage.tla: a masked n-d object array with external/internal axes: NormalizeKey, Dump, GetItem (ints, negatives, "
+        "slices over the interleaved shape), ToArray, Mask, MaskLinear (row-major over the external shape), HasIndex, "
+        "GetFromIndex, PersistReopen, and SliceIndices transcribing CPython (checked against range(*slice.indices(n)) on "
+        "9604 cases, mismatch = exit 2); TLC checks eleven laws over every geometry of rank<=3 with distinct sizes and every "
+        "dump/reopen sequence to a depth, and exports op sequences; each is replayed on FileArray, DictArray, "
+        "SharedMemoryDictArray (and any registered class) with all observers logged after every mutator; TLC validates the "
+        "histories (TraceStorage.tla). Random longer histories on larger shapes are added; a NumPy masked reference "
+        "cross-checks the spec (disagreement = exit 2); backends are compared directly too.",
+   note="Don't-cares: geometries with no external axis, linear indices out of range, exception class of get_from_index on "
+        "unwritten, MaskedArray vs masked constants, non-tuple keys / step 0.",
+   technique="TLA+ masked-array model checked by TLC; exported op sequences replayed on every backend; TLC trace validation"),
 }
 NOT_YET = "check not built yet in this round (specification module planned in DESIGN.md section 6)"
 
